@@ -66,6 +66,8 @@ def strategy(tier):
         # the same request is sent 1-3 times on one connection (keep-alive workers serve them all); a body may travel chunked, with trailers
         "times": st.sampled_from([1, 1, 2, 3]),
         "chunked": st.sampled_from([None, None, "plain", "trailers"]),
+        # Expect: 100-continue at a drawn position among the headers; the interim response may fail to be sent (client gone)
+        "expect": st.one_of(st.none(), st.none(), st.tuples(st.integers(0, 6), st.sampled_from(["ok", "send-fails", "send-fails"])).map(list)),
         "prefix_sn": st.integers(0, 3),
         "script_name": st.sampled_from([None, None, None, ["env", "/a"], ["hdr", "/a"], ["env", "/docs"], ["hdr", "/%41"], ["env", "/"],
                                         ["hdr", "/caf\xe9"]]),
@@ -111,7 +113,72 @@ def pct_decode(s):
     return out.decode("latin-1")
 
 
+def extra_cases(tier, seed, shard, nshards):
+    for i, k in enumerate(list(wenv.KINDS)):
+        if (i + seed) % nshards == shard:
+            yield {"engine": "R", "kind": k}
+
+
+EXHAUSTIVE_NOTE = "engine R: one reload history of the configured mount point (SCRIPT_NAME through raw_env) per worker class"
+
+
+def run_real(case):
+    """engine R: SCRIPT_NAME "as configured" across reloads: set through raw_env, kept by a HUP, changed by a HUP, removed by a HUP"""
+    import signal
+    import time
+    from vlib import renv
+    kind = case["kind"]
+    srv = renv.Server(kind=kind, workers=None, bind="unix", graceful=2, timeout=30, threads=2 if kind == "gthread" else None,
+                      conf_lines=["workers = 1", "raw_env = ['SCRIPT_NAME=/app']"])
+    vio = []
+
+    def V(sig, observed, expected):
+        vio.append(Violation("split-from-script-name-as-configured", "C15/real:" + sig, observed={"detail": observed, "case": case,
+                                                                                                "log_tail": srv.logtext()[-600:]}, expected=expected))
+
+    def probe(label, want_script, want_path, target="/app/x%20y"):
+        r, data, err = srv.request(target, timeout=5)
+        body = r.body.decode("latin-1") if r is not None and r.ok else ""
+        m = re.search(r"script=(\S*) path=(.*)$", body.strip())
+        got = (m.group(1), m.group(2)) if m else None
+        if got != (want_script, want_path):
+            V("script-name-or-path-info-differs:" + label, {"got": got, "status": getattr(r, "status", None), "error": err}, [want_script, want_path])
+            return False
+        return True
+
+    def reload(lines):
+        before = srv.workers()
+        srv.write_conf(["workers = 1"] + lines)
+        srv.signal(signal.SIGHUP)
+        t0 = time.time()
+        while time.time() - t0 < 10 and (set(srv.workers()) & set(before) or not srv.workers()):
+            time.sleep(0.05)
+        time.sleep(0.3)
+
+    try:
+        if not srv.wait_ready(path="/app/pid"):
+            return Outcome([], False, ["engine:R", "inconclusive:not-ready"])
+        ok = probe("configured-at-start", "/app", "/x y")
+        if ok:
+            reload(["raw_env = ['SCRIPT_NAME=/app']"])
+            ok = probe("kept-by-reload", "/app", "/x y")
+        if ok:
+            reload(["raw_env = ['SCRIPT_NAME=/other']"])
+            ok = probe("changed-by-reload", "/other", "/z", target="/other/z")
+        if ok:
+            reload(["raw_env = ['UNRELATED=1']"])
+            ok = probe("removed-by-reload", "", "/app/x y")
+        if ok:
+            reload([])
+            ok = probe("still-removed-after-another-reload", "", "/other/z", target="/other/z")
+        return Outcome(vio, True, ["engine:R", "kind:" + kind], key="R|" + kind, sample={"case": case})
+    finally:
+        srv.cleanup()
+
+
 def run_case(case):
+    if case.get("engine") == "R":
+        return run_real(case)
     form, target = case["target"]
     hdrs = [list(h) for h in case["headers"]]
     sn = case.get("script_name")
@@ -121,6 +188,9 @@ def run_case(case):
     if sn and sn[0] == "hdr":
         hdrs.append(["SCRIPT_NAME", sn[1]])
     body = case["body"] if case["method"] in ("POST", "PUT", "PATCH") else ""
+    ex = case.get("expect")
+    if ex:
+        hdrs.insert(min(ex[0], len(hdrs)), ["Expect", "100-continue"])
     lines = ["%s %s HTTP/%s" % (case["method"], target, case["version"]), "Host: example.com"]
     for k, v in hdrs:
         lines.append("%s: %s" % (k, v))
@@ -137,7 +207,7 @@ def run_case(case):
     app = wenv.AppProgram(prog)
     cfg = wenv.make_cfg(keepalive=2, worker_connections=10, threads=2)
     env = wenv.Env(case["kind"], cfg, app)
-    sock = wenv.FakeSocket([raw])
+    sock = wenv.FakeSocket([raw], send_fault=(0, 32) if ex and ex[1] == "send-fails" else None)
     try:
         if sn and sn[0] == "env":
             os.environ["SCRIPT_NAME"] = sn[1]
@@ -159,7 +229,7 @@ def run_case(case):
     if not app.calls:
         classes.append("rejected")
         plain = re.match(r"^[/A-Za-z0-9._~\-]*\Z", target) and all(re.match(r"^[ -~]*\Z", v) for _, v in hdrs)
-        if plain and not (sn and not target.startswith(sn[1])):
+        if plain and not (sn and not target.startswith(sn[1])) and not (ex and ex[1] == "send-fails"):
             vio.append(Violation("plain-accepted", "C15/plain-request-rejected", {"raw": raw[:300], "wire": sock.received()[:200]},
                                  "accepted"))
         return Outcome(vio, False, classes, sample={"target": target, "accepted": False})
